@@ -7,6 +7,12 @@
 //!            r  the port is closed (connection refused)
 //!            c  the peer accepts and closes at once (tcp: a lost connection; tls: a failed handshake)
 //!            s  the peer accepts, serves one request, then closes (tcp only)
+//!            t  (tls) the peer accepts the TCP connection, sends nothing for 150 ms, then closes: the client is
+//!               parked in its handshake; a request submitted meanwhile must stay unanswered until then
+//!            w  (tls:<dir>:<otherdir>) a real rodbus TLS server whose certificate chains to ANOTHER authority
+//!               (<otherdir>/server_cert.pem, server_key.pem, ca_cert.pem): the client must refuse it = a failed connect
+//!            h  (tls:<dir>) a real rodbus TLS server the client accepts (<dir>/server_cert.pem ..): Connected,
+//!               then the server is stopped (the connection is lost)
 //!            e  the peer accepts; once Connected is announced the channel is disabled and enabled again (the
 //!               connection ends without a wait; a successful connection must have reset the back-off)
 //!            q  refused, and while the announced wait is pending a request is submitted (it fails with
@@ -407,7 +413,12 @@ async fn scenario(line: String, ip: Ipv4Addr, n: usize) -> String {
     let gate = Gate { events: ev_tx, permits: std::sync::Arc::new(tokio::sync::Mutex::new(permit_rx)) };
     let retry = doubling_retry_strategy(min, max);
     let host = HostAddr::ip(std::net::IpAddr::V4(ip), port);
-    let channel = if let Some(dir) = variant.strip_prefix("tls:") {
+    let tls_dirs: Option<(String, String)> = variant.strip_prefix("tls:").map(|rest| match rest.split_once(':') {
+        Some((a, b)) => (a.to_string(), b.to_string()),
+        None => (rest.to_string(), rest.to_string()),
+    });
+    let channel = if let Some((dir, _)) = tls_dirs.as_ref() {
+        let dir = dir.as_str();
         let cfg = match TlsClientConfig::full_pki(
             Some("test.com".to_string()),
             &Path::new(dir).join("ca_cert.pem"),
@@ -426,6 +437,8 @@ async fn scenario(line: String, ip: Ipv4Addr, n: usize) -> String {
     let _ = channel.enable().await;
     let mut log: Vec<(ClientState, Instant)> = Vec::new();
     let mut listener: Option<TcpListener> = None;
+    #[allow(unused_assignments, unused_variables)]
+    let mut tls_server: Option<rodbus::server::ServerHandle> = None;
     let limit = max + Duration::from_secs(4);
 
     // consume events up to and including the next Connecting; false on timeout
@@ -449,6 +462,31 @@ async fn scenario(line: String, ip: Ipv4Addr, n: usize) -> String {
         }
         match outcome {
             'r' | 'd' | 'q' => listener = None,
+            'w' | 'h' => {
+                // a real TLS server takes the port for this attempt
+                listener = None;
+                let Some((good, other)) = tls_dirs.as_ref() else { return "NOTLS".to_string() };
+                let d = Path::new(if outcome == 'h' { good } else { other });
+                let cfg = match rodbus::server::TlsServerConfig::new(&d.join("ca_cert.pem"), &d.join("server_cert.pem"), &d.join("server_key.pem"), None, MinTlsVersion::V1_2, CertificateMode::AuthorityBased) {
+                    Ok(c) => c,
+                    Err(e) => return format!("CONFIG:{e}"),
+                };
+                let mut started = None;
+                for _ in 0..50 {
+                    let map = rodbus::server::ServerHandlerMap::single(UnitId::new(1), rodbus::server::RequestHandler::wrap(NoHandler));
+                    match rodbus::server::spawn_tls_server_task(2, addr, map, cfg.clone(), rodbus::server::AddressFilter::Any, DecodeLevel::nothing()).await {
+                        Ok(h) => {
+                            started = Some(h);
+                            break;
+                        }
+                        Err(_) => tokio::time::sleep(Duration::from_millis(10)).await,
+                    }
+                }
+                if started.is_none() {
+                    return "NOBIND".to_string();
+                }
+                tls_server = started;
+            }
             _ => {
                 if listener.is_none() {
                     listener = bind(addr).await;
@@ -461,6 +499,72 @@ async fn scenario(line: String, ip: Ipv4Addr, n: usize) -> String {
         let _ = permit_tx.send(()).await;
         match outcome {
             'r' => {}
+            'w' => {
+                // the client refuses the server: wait for the announcement, then stop the server
+                loop {
+                    match tokio::time::timeout(limit, ev_rx.recv()).await {
+                        Ok(Some((s, t))) => {
+                            log.push((s, t));
+                            if let ClientState::WaitAfterFailedConnect(_) | ClientState::Connected = s {
+                                break;
+                            }
+                        }
+                        _ => return "NOVERDICT".to_string(),
+                    }
+                }
+                tls_server = None;
+            }
+            'h' => {
+                loop {
+                    match tokio::time::timeout(limit, ev_rx.recv()).await {
+                        Ok(Some((s, t))) => {
+                            log.push((s, t));
+                            if let ClientState::WaitAfterFailedConnect(_) | ClientState::Connected = s {
+                                break;
+                            }
+                        }
+                        _ => return "NOVERDICT".to_string(),
+                    }
+                }
+                // stopping the server closes the session: the connection is lost
+                tls_server = None;
+            }
+            't' => {
+                let l = listener.as_ref().unwrap();
+                let sock = match tokio::time::timeout(Duration::from_secs(3), l.accept()).await {
+                    Ok(Ok((sock, _))) => sock,
+                    _ => return "NOACCEPT".to_string(),
+                };
+                // the client is (about to be) parked in its handshake. A request is submitted meanwhile; whatever
+                // happens to it, nothing but TLS handshake records may arrive here: no Modbus byte before the handshake
+                let mut sock = sock;
+                let ch = channel.clone();
+                let req = tokio::spawn(async move {
+                    let p = RequestParam::new(UnitId::new(1), Duration::from_secs(2));
+                    let _ = ch.read_holding_registers(p, AddressRange::try_from(0, 1).unwrap()).await;
+                });
+                let mut seen = Vec::new();
+                let end = Instant::now() + Duration::from_millis(150);
+                loop {
+                    let left = end.saturating_duration_since(Instant::now());
+                    if left.is_zero() {
+                        break;
+                    }
+                    let mut buf = [0u8; 2048];
+                    match tokio::time::timeout(left, sock.read(&mut buf)).await {
+                        Ok(Ok(0)) | Ok(Err(_)) => break,
+                        Ok(Ok(n)) => seen.extend_from_slice(&buf[..n]),
+                        Err(_) => break,
+                    }
+                }
+                drop(sock);
+                let _ = tokio::time::timeout(Duration::from_secs(3), req).await;
+                // a TLS record of type handshake (0x16), version major 3; and no MBAP header of a read request
+                let modbus = seen.windows(8).any(|w| w[2] == 0 && w[3] == 0 && w[4] == 0 && w[5] == 6 && w[7] == 3);
+                if seen.is_empty() || seen[0] != 0x16 || seen.get(1) != Some(&3) || (seen.len() < 64 && modbus) {
+                    return format!("NOT-A-CLIENT-HELLO:{:02X?}", &seen[..seen.len().min(16)]);
+                }
+            }
             'q' => {
                 loop {
                     match tokio::time::timeout(limit, ev_rx.recv()).await {
@@ -566,6 +670,7 @@ async fn scenario(line: String, ip: Ipv4Addr, n: usize) -> String {
             _ => return "BADSCRIPT".to_string(),
         }
     }
+    let _ = &tls_server;
     // the wait announced after the last attempt, and the Connecting that ends it
     let _ = until_connecting(&mut ev_rx, &mut log, limit).await;
     let _ = permit_tx.send(()).await;
@@ -598,6 +703,14 @@ async fn scenario(line: String, ip: Ipv4Addr, n: usize) -> String {
 
 pub fn main(_args: &[String]) -> i32 {
     crate::util::quiet_panics();
+    // sfio-rustls-config println!s on every client certificate verification (letter h runs a TLS server in
+    // this process): keep the result channel clean
+    let mut result_out: std::fs::File = unsafe {
+        use std::os::fd::FromRawFd;
+        let saved = libc::dup(1);
+        libc::dup2(2, 1);
+        std::fs::File::from_raw_fd(saved)
+    };
     let lines: Vec<String> = crate::util::stdin_lines().collect();
     if lines.iter().any(|l| l.starts_with("rtuserver")) {
         // the RTU server announces its delays only in its log
@@ -623,7 +736,8 @@ pub fn main(_args: &[String]) -> i32 {
         res
     });
     for r in results {
-        println!("{r}");
+        use std::io::Write;
+        let _ = writeln!(result_out, "{r}");
     }
     0
 }
